@@ -1070,10 +1070,33 @@ func c10VNCase(w *bufio.Writer, rep *c10Reporter, r *u.Rng, dist map[string]int)
 	dist["VNCase"]++
 }
 
+// c10StallDial: a header exactly at the limit the 4-byte room check accepted (Chrome_115:
+// header 20 + token; 20 + 1240 + 16 + 4 = 1280): the flight sends one CRYPTO byte per datagram
+// up to write offset 63 and then stalls; the dial times out without an error.
+func c10StallDial(w *bufio.Writer, rep *c10Reporter, dist map[string]int) {
+	sp, err := specFor("Chrome_115_IPv4")
+	if err != nil {
+		return
+	}
+	sp.InitialPacketSpec.ClientTokenLength = 1240
+	sp.InitialPacketSpec.FrameBuilder = nil // pass-through (the parrot's builder would fail with the buffer error)
+	fl, derr := c10Dial(sp, &quic.Config{}, true)
+	dist["stall-dial"]++
+	if derr != nil {
+		rep.fail("upacker/dial/capture", derr.Error(), "stall dial")
+		return
+	}
+	fmt.Fprintf(w, "INFO\tChrome_115 with ClientTokenLength 1240: %d datagrams, rejected=%v, dial error %q\n", len(fl.Datagrams), c10Rejected(fl), fl.DialErr)
+	if why := c10SpecInvalid(sp, 1280); why != "" && !c10Rejected(fl) {
+		rep.fail("upacker/dial/not-rejected/"+why, fmt.Sprintf("the spec is not sendable (%s: the flight stalls at write offset 64) but the dial sent %d datagram(s) instead of failing with an error (%q)", why, len(fl.Datagrams), fl.DialErr), c10SpecString(sp))
+	}
+}
+
 func runUPackerDials(w *bufio.Writer, seed uint64, n int, _ []string) {
 	r := u.NewRng(seed)
 	rep := &c10Reporter{w: w, seen: map[string]int{}}
 	dist := map[string]int{}
+	c10StallDial(w, rep, dist)
 	for i := 0; i < n; i++ {
 		c10DialCase(w, rep, r.Fork(), dist)
 		w.Flush()
